@@ -109,6 +109,10 @@ func runC11(c *Ctx, r *Rec) {
 		r.ok("D1-grammar-equals-scanner", construct, c.pos(st.matcherPos[tn]), "L(grammar) = L(matcher)")
 	}
 	r.floor("D1-grammar-equals-scanner", 8)
+	checkWholeRemainder(c, r, "D1-whole-remainder", st)
+	if parser, _ := c.impl("cdcn", "ParserLike"); parser != nil {
+		checkFreshParseState(c, r, "D5-fresh-parse-state", parser)
+	}
 
 	// ---- D2
 	anyL := anyDFA(al)
